@@ -199,7 +199,10 @@ func runCheck(o *checkOpts) int {
 	if !o.keep {
 		defer os.RemoveAll(tmp)
 	}
-	cfg := WorkerCfg{VerifDir: o.verif, Repo: o.repo, PkgDirs: pkgDirs, Tier: tierN, Known: known.ids, KnownSites: known.sites}
+	cfg := WorkerCfg{VerifDir: o.verif, Repo: o.repo, PkgDirs: pkgDirs, Tier: tierN, Known: known.ids, KnownSites: known.sites, SolverPar: 6}
+	if v := os.Getenv("GOSYM_SOLVER_PAR"); v != "" {
+		cfg.SolverPar, _ = strconv.Atoi(v)
+	}
 	if tierN == 1 {
 		cfg.TmoMs = 180000
 	} else {
@@ -404,6 +407,8 @@ func report(o *checkOpts, tierN int, known *knownFile, results []JobResult, hs [
 	sstats.BySolver, sstats.TimeBy = map[string]int{}, map[string]float64{}
 	funcs := map[string]bool{}
 	var samples []interface{}
+	siteLive := map[string]bool{}
+	siteDead := map[string]string{}
 	for i := range results {
 		r := &results[i]
 		if r.Error != "" {
@@ -457,8 +462,13 @@ func report(o *checkOpts, tierN int, known *knownFile, results []JobResult, hs [
 					exit = 2
 				}
 			case "vacuity":
-				problems = append(problems, fmt.Sprintf("VACUOUS %s %v: assertion %q at %s is never reached (%s)", r.Harness, r.Choices, ob.Msg, ob.Site, ob.Status))
-				exit = 2
+				// an assertion site must be reachable in at least one job (shape) of its harness
+				k := r.Harness + "|" + ob.Site + "|" + ob.Msg
+				if ob.Status == "sat" {
+					siteLive[k] = true
+				} else if _, seen := siteDead[k]; !seen {
+					siteDead[k] = fmt.Sprintf("VACUOUS %s: assertion %q at %s is never reached in any job (%s)", r.Harness, ob.Msg, ob.Site, ob.Status)
+				}
 			default:
 				if ob.Witness {
 					cands = append(cands, &candidate{job: r, obl: ob, class: "known"})
@@ -501,6 +511,18 @@ func report(o *checkOpts, tierN int, known *knownFile, results []JobResult, hs [
 				exit = 2
 			}
 		}
+	}
+
+	var deadKeys []string
+	for k := range siteDead {
+		if !siteLive[k] {
+			deadKeys = append(deadKeys, k)
+		}
+	}
+	sort.Strings(deadKeys)
+	for _, k := range deadKeys {
+		problems = append(problems, siteDead[k])
+		exit = 2
 	}
 
 	// ---- write replay vectors
